@@ -298,6 +298,13 @@ def handler : Handler := fun op j =>
       (List.finRange m).flatMap fun i => (List.finRange n).map fun jj => A i jj
     some (ok (jObj [("re", jFs ((flat P).map Prod.fst)), ("im", jFs ((flat P).map Prod.snd)),
       ("usvre", jFs ((flat M).map Prod.fst)), ("usvim", jFs ((flat M).map Prod.snd))]))
+  | "sql2loss_sys" => do
+    -- residual of the system `SquaredL2Loss.prox` hands to cg (dense real A, row-major m×n) at the point x
+    let m ← fNat? j "m"; let n ← fNat? j "n"
+    let a ← fFloats? j "a"; let w ← fFloats? j "w"; let y ← fFloats? j "y"; let v ← fFloats? j "v"; let x ← fFloats? j "x"
+    let lam ← fFloat? j "lam"; let sc ← fFloat? j "scale"
+    if a.length != m * n || w.length != m || y.length != m || v.length != n || x.length != n then none else
+    some (ok (outR (sqL2LossSysResidual sc (vecOf w m) (matOf a m n) (vecOf y m) (vecOf v n) (vecOf x n) lam)))
   | "param_after" => do
     let p0 ← fFloat? j "p0"; let l ← fFloats? j "assigns"
     some (ok (jObj [("p", jF (paramAfter p0 l))]))
